@@ -21,7 +21,8 @@ STACKS = ["pooled", "hash", "hashpooled", "retrying", "retrying2"]
 
 def extra_events():
     return [{"e": "op", "op": o, "k": "", "v": [], "exp": 0, "nr": False, "cas": 0, "delta": 0, "keys": [], "items": []}
-            for o in ("set-strval", "set-intval", "set-ukey", "get-ukey", "set-flags", "touch-kw", "gat-kw", "get-many-empty")]
+            for o in ("set-strval", "set-intval", "set-ukey", "get-ukey", "set-flags", "touch-kw", "gat-kw", "get-many-empty",
+                      "set-empty", "getitem-empty", "setitem", "getitem", "delitem", "getitem-miss", "set-none", "get-none")]
 
 
 def configs(tier, rnd):
@@ -52,11 +53,15 @@ def main(tier, rep):
     cfgs = list(configs(tier, rnd))
     per_cfg = (60 if tier == "quick" else 400)
     for ci, (prefix, dn, kw) in enumerate(cfgs):
-        sample = hs[ci * per_cfg: (ci + 1) * per_cfg] + sims[ci::len(cfgs)]
+        sample = CL.probe_histories() + hs[ci * per_cfg: (ci + 1) * per_cfg] + sims[ci::len(cfgs)]
         for hi, h in enumerate(sample):
-            hist = list(h) + (extra_events() if hi % 4 == 0 else [])
-            variant = (hi * 2 + ci) * 2        # even: the noreply argument is left to the defaults where possible
             stack = STACKS[(hi + ci) % len(STACKS)]
+            extra = extra_events() if hi % 4 == 0 else []
+            if stack in ("hash", "hashpooled"):
+                # HashClient does not offer item-style access (c[k], c[k] = v, del c[k])
+                extra = [e for e in extra if e["op"] not in ("setitem", "getitem", "delitem", "getitem-miss", "getitem-empty")]
+            hist = list(h) + extra
+            variant = (hi * 2 + ci) * 2        # even: the noreply argument is left to the defaults where possible
             skw = dict(kw)
             ref = CL.replay_history("client", hist, variant, dn=dn, prefix=prefix, **skw)
             if stack == "retrying2":
